@@ -1,7 +1,7 @@
 (** C03 — only justified work is re-executed (core fragment of the engine model). *)
 From QV Require Import Common.Prelude Engine.Model Engine.Core Engine.CoreSpec Engine.CoreSound.
 From QV Require Import Engine.Fw Engine.FwOnce.
-From QV Require Import Engine.MdlSpec Engine.MdlSem Engine.MdlOnce Engine.MdlJust.
+From QV Require Import Engine.MdlSpec Engine.MdlSem Engine.MdlOnce Engine.MdlJust Engine.MdlJustX.
 
 (** an executor runs at most once per request and at most once between two input sessions *)
 Theorem C03_core_once :
@@ -76,7 +76,18 @@ Theorem C03_model_justified_any_task_order :
                         ~ MdlSpec p (inputs_after (firstn (S i) ops)) d v.
 Proof. exact MdlJust.model_justified_g_o. Qed.
 
+(** with EXTERNAL INPUTS, every history (refresh, world changes): a re-executed external input is
+    re-read by a refreshing session; a re-executed query read, at its previous execution, a
+    dependency whose from-scratch value - external inputs holding what the world answered at
+    the last operation that ran them ([ext_after]) - is different now *)
+Theorem C03_model_justified_x :
+  forall p ops i j m, wf_model_x p -> model_sessions_fuelled p ops i ->
+    justified_x p ops (run_history p init_state ops) i j m.
+Proof. exact MdlJustX.model_justified_x. Qed.
+Check mexx_justified.
+
 Print Assumptions C03_core_once.
+Print Assumptions C03_model_justified_x.
 Print Assumptions C03_model_once_any_task_order.
 Print Assumptions C03_model_justified_any_task_order.
 Print Assumptions C03_model_once.
